@@ -542,5 +542,85 @@ pub proof fn lemma_unlink_inner<E, Ix: IndexType>(es: Seq<Edge<E, Ix>>, es2: Seq
     }
 }
 
+pub struct Neighbors<'a, E: 'a, Ix: 'a> {
+    /// starting node to skip over
+    pub skip_start: NodeIndex<Ix>,
+    pub edges: &'a [Edge<E, Ix>],
+    pub next: [EdgeIndex<Ix>; 2],
+}
+
+// targets along the out-chain, then sources along the in-chain that are not the start node
+pub open spec fn out_part<E, Ix: IndexType>(es: Seq<Edge<E, Ix>>, so: Seq<int>) -> Seq<usize> {
+    Seq::new(so.len(), |i: int| es[so[i]].node[1].0.ix())
+}
+pub open spec fn in_part<E, Ix: IndexType>(es: Seq<Edge<E, Ix>>, si: Seq<int>, skip: usize) -> Seq<usize>
+    decreases si.len()
+{
+    if si.len() == 0 { Seq::empty() }
+    else if es[si[0]].node[0].0.ix() == skip { in_part(es, si.drop_first(), skip) }
+    else { seq![es[si[0]].node[0].0.ix()] + in_part(es, si.drop_first(), skip) }
+}
+
+impl<'a, E, Ix: IndexType> Neighbors<'a, E, Ix> {
+    pub open spec fn has_lists(&self, so: Seq<int>, si: Seq<int>) -> bool {
+        chain(self.edges@, self.next[0], 0, so) && chain(self.edges@, self.next[1], 1, si)
+    }
+    pub open spec fn remaining(&self, so: Seq<int>, si: Seq<int>) -> Seq<usize> {
+        out_part(self.edges@, so) + in_part(self.edges@, si, self.skip_start.0.ix())
+    }
+
+    fn next(&mut self, Ghost(so): Ghost<Seq<int>>, Ghost(si): Ghost<Seq<int>>) -> (r: (Option<NodeIndex<Ix>>, Ghost<Seq<int>>, Ghost<Seq<int>>))
+        requires old(self).has_lists(so, si)
+        ensures
+            final(self).has_lists(r.1@, r.2@),
+            final(self).edges@ == old(self).edges@, final(self).skip_start == old(self).skip_start,
+            match r.0 {
+                Some(x) => old(self).remaining(so, si) == seq![x.0.ix()] + final(self).remaining(r.1@, r.2@),
+                None => old(self).remaining(so, si).len() == 0,
+            }
+    {
+        // First any outgoing edges
+        match self.edges.get(self.next[0].index()) {
+            None => {}
+            Some(edge) => {
+                self.next[0] = edge.next[0];
+                proof {
+                    assert(so.len() > 0);
+                    assert(out_part(self.edges@, so) =~= seq![edge.node[1].0.ix()] + out_part(self.edges@, so.drop_first()));
+                }
+                return (Some(edge.node[1]), Ghost(so.drop_first()), Ghost(si));
+            }
+        }
+        proof { assert(so.len() == 0); assert(out_part(self.edges@, so) =~= Seq::<usize>::empty()); }
+        let ghost mut ri = si;
+        // Then incoming edges
+        while let Some(edge) = self.edges.get(self.next[1].index())
+            invariant
+                self.edges@ == old(self).edges@, self.skip_start == old(self).skip_start,
+                self.next[0] == old(self).next[0],
+                so.len() == 0, chain(self.edges@, self.next[0], 0, so),
+                chain(self.edges@, self.next[1], 1, ri),
+                in_part(self.edges@, ri, self.skip_start.0.ix()) == in_part(self.edges@, si, self.skip_start.0.ix()),
+            ensures
+                self.next[1].0.ix() >= self.edges@.len(),
+            decreases ri.len()
+        {
+            let ghost ri0 = ri;
+            self.next[1] = edge.next[1];
+            proof { assert(ri.len() > 0); }
+            if edge.node[0] != self.skip_start {
+                proof {
+                    assert(out_part(self.edges@, so) =~= Seq::<usize>::empty());
+                    assert(in_part(self.edges@, ri0, self.skip_start.0.ix()) =~= seq![edge.node[0].0.ix()] + in_part(self.edges@, ri0.drop_first(), self.skip_start.0.ix()));
+                }
+                return (Some(edge.node[0]), Ghost(so), Ghost(ri.drop_first()));
+            }
+            proof { ri = ri.drop_first(); }
+        }
+        proof { assert(ri.len() == 0); }
+        (None, Ghost(so), Ghost(ri))
+    }
+}
+
 }
 fn main() {}
